@@ -93,6 +93,25 @@ def cases(rng, tier):
         yield Case("r%d" % i, ["in 1 %s" % hx(bytes(e.b)), "session 1 *"], oracle=oracle_session,
                    meta={"dist": {"mutation": "rle-structure", "runs_vs_values": "more" if nr > nv else "fewer" if nr < nv else "equal",
                                   "rows_vs_runs": "equal" if rowcount == total else "differ"}})
+    # element counts whose byte size wraps 32 bits for the element width (2^32 / 4, / 8, / 16, and a little more): a size
+    # computed in unsigned int comes out tiny while the count stays huge
+    from vlib import FIXED
+    wrap_cases = 0
+    for ty in (2, 4, 3, 5, 13, 6):
+        w = FIXED[ty]
+        for extra in (0, 1, 3):
+            cnt = (1 << 32) // w + extra
+            if cnt >= 1 << 31: continue
+            nrows = rng.choice([1, 3, 40])
+            t = {"tmeta": [], "cols": [{"name": b"c", "ty": ty, "extra": []}], "slices": [[{"vals": rand_array(rng, ty, nrows, "random"), "enc": G.PLAIN, "props": []}]]}
+            e = G.encode_table(t)
+            data = bytearray(e.b)
+            offs = [f for f in e.fields if f[0] == "arrcount" and f[1] > 20]
+            if not offs: continue
+            (fk, off, fw, note) = offs[-1]
+            data[off:off + 4] = struct.pack("<i", cnt)
+            wrap_cases += 1
+            yield Case("w%d" % wrap_cases, ["in 1 %s" % hx(bytes(data)), "session 1 *"], oracle=oracle_session, meta={"dist": {"mutation": "count-wraps-32-bit-size"}})
     # column slices whose property list names a property twice (the API refuses that, a stream can say it)
     for i in range({"quick": 40, "thorough": 800, "search": 30}[tier]):
         t = G.rand_table(rng, ncols=rng.choice([1, 2, 3]), nslices=rng.choice([1, 2]), maxrows=6)
